@@ -46,9 +46,31 @@ def run(ctx, pid):
         ex, obs = add_to_ctx(ctx, c, S.SCAN_CALLEES)
         n += len(obs)
     n += _state_algebra(ctx, pid)
+    # the glue around the operator: _zip, chunk_scan, grouped_reduce, _finalize_scan and the wiring in dask_groupby_scan
+    import vlib.pyvc.prims as P
+
+    for c, callees in S.all_scan_glue():
+        c.prefix = pid + c.prefix[3:]
+        ex, obs = add_to_ctx(ctx, c, callees)
+        n += len(obs)
+    c, callees, models = S.dask_groupby_scan_contract()
+    c.prefix = pid + c.prefix[3:]
+    orig = P.Prims.register_defaults
+
+    def reg(self, orig=orig):
+        orig(self)
+        models(self)
+
+    P.Prims.register_defaults = reg
+    try:
+        ex, obs = add_to_ctx(ctx, c, callees)
+    finally:
+        P.Prims.register_defaults = orig
+    n += len(obs)
     from ..pyvc import conformance
 
     conformance.add_to_ctx(ctx, ["AlignedArrays.last", "generic_aggregate", "get_indexer"])
     return (f"scan_binary_op (both modes, right operand a reduced or a scanned block) and concatenate: {n} obligations "
             "(result = right block combined with the carried value of its own group only; carried state = last valid value per code of left ++ result; "
-            "result handed on iff the right operand is a scanned block).")
+            "result handed on iff the right operand is a scanned block); "
+            "glue: _zip / chunk_scan / grouped_reduce / _finalize_scan field and argument wiring, dask_groupby_scan protocol (codes first, blueprint handed to all three callables, blelloch prefix over the zipped blocks).")
